@@ -172,7 +172,9 @@ def run(ck, ctx):
         # ---- the constructor's meta keys
         st0 = I.new_state()
         d_in, a_in, n_in = I.input("data", kind="array"), I.input("axes"), I.input("axis_names")
-        obj = I.construct(I.cls(GRID_MOD, "NssGrid"), [d_in, a_in, n_in], {}, st0)
+        # constructed with keyword arguments that are not known (callers such as the slicing code pass some on): whatever
+        # the constructor takes out of them and merges into meta is seen as a merge of unknown entries
+        obj = I.construct(I.cls(GRID_MOD, "NssGrid"), [d_in, a_in, n_in], {"**": I.input("further keyword arguments")}, st0)
         meta = attr(I, st0, obj, "meta")
         comps = [x for x in walk([meta]) if x.op == "DictComp"]
         ctor_key = None
